@@ -275,6 +275,16 @@ func runC05(seed int64, tier string, sc *Script) map[string]any {
 			ans = "ok:" + fmtBytes(b)
 		}
 		sc.Op(ans, "v readall %s reader=%s", tc.d, fmtReader(tc.rd))
+		// FetchAll over a fetcher that hands out this reader: the same verdict, bytes beyond
+		// Size and a short stream included
+		b, err = content.FetchAll(context.Background(), fetcherFunc(func(context.Context, ocispec.Descriptor) (io.ReadCloser, error) {
+			return io.NopCloser(&scriptedReader{evs: cloneEvs(tc.rd)}), nil
+		}), od)
+		ans = errKind(err)
+		if err == nil {
+			ans = "ok:" + fmtBytes(b)
+		}
+		sc.Op(ans, "v fetchall %s reader=%s", tc.d, fmtReader(tc.rd))
 		var buf bytes.Buffer
 		err = ioutil.CopyBuffer(&buf, &scriptedReader{evs: cloneEvs(tc.rd)}, make([]byte, 32*1024), od)
 		ans = errKind(err)
@@ -508,4 +518,11 @@ func (r *stallReader) Read(p []byte) (int, error) {
 	<-r.release
 	n := copy(p, r.junk)
 	return n, errors.New("injected read failure after stall")
+}
+
+// fetcherFunc adapts a function to content.Fetcher.
+type fetcherFunc func(context.Context, ocispec.Descriptor) (io.ReadCloser, error)
+
+func (f fetcherFunc) Fetch(ctx context.Context, d ocispec.Descriptor) (io.ReadCloser, error) {
+	return f(ctx, d)
 }
